@@ -76,6 +76,17 @@ class Tr:
             if op == '>':
                 return "(%s < %s)" % (b, a)
             return "(%s %s %s)" % (a, op, b)
+        if isinstance(n, ast.IfExp):
+            # `A if x.ndim==1 else B`: the scalar (1D) branch; the vector branch is the 2D model's business
+            t = n.test
+            if (isinstance(t, ast.Compare) and isinstance(t.left, ast.Attribute) and t.left.attr == 'ndim' and len(t.ops) == 1
+                    and isinstance(t.ops[0], ast.Eq) and isinstance(t.comparators[0], ast.Constant) and t.comparators[0].value == 1):
+                return self.e(n.body)
+            raise Untranslatable("conditional expression")
+        if isinstance(n, ast.Call) and isinstance(n.func, ast.Attribute) and n.func.attr == 'copy' and not n.args:
+            return self.e(n.func.value)
+        if isinstance(n, ast.Call) and isinstance(n.func, ast.Name) and n.func.id == '_sca_mult_vec' and len(n.args) == 2:
+            return "(%s * %s)" % (self.e(n.args[0]), self.e(n.args[1]))     # scalar (1D) case of the helper
         if isinstance(n, ast.Call):
             f = n.func
             if isinstance(f, ast.Attribute) and isinstance(f.value, ast.Name) and f.value.id == 'np' or isinstance(f, ast.Name):
@@ -98,7 +109,8 @@ class Tr:
                 args = []
                 for x in n.args:
                     if isinstance(x, ast.Name) and ('list', x.id) in self.env:
-                        args += self.env[('list', x.id)]
+                        lst = self.env[('list', x.id)]
+                        args += lst if argmap is None else [lst[i] for i in argmap]
                     else:
                         args.append(self.e(x))
                 return "(%s %s)" % (lname, " ".join(lead + args))
@@ -124,6 +136,16 @@ class Tr:
                         proj = tmp + "".join(".2" for _ in range(i)) + (".1" if i < k - 1 else "")
                         lines.append("  let %s : α := %s" % (t.id, proj))
                         self.env[t.id] = t.id
+                    continue
+                if isinstance(val, ast.List) and len(tg) == 1 and isinstance(tg[0], ast.Name):
+                    names = []
+                    for i, x in enumerate(val.elts):
+                        nm = "%s_%d" % (tg[0].id, i)
+                        lines.append("  let %s : α := %s" % (nm, self.e(x)))
+                        names.append(nm)
+                    self.env[('list', tg[0].id)] = names
+                    for i, nm in enumerate(names):
+                        self.env[('sub', tg[0].id, i)] = nm
                     continue
                 v = self.e(val)
                 first = None
@@ -191,6 +213,64 @@ SPECS = [
     dict(lean='eHllc', file='euler.py', cls='euler', meth='numflux_hllc', params='γ rL uL pL rR uR pR', ret='α × α × α',
          lists={'pdataL': L('rL', 'uL', 'pL'), 'pdataR': L('rR', 'uR', 'pR')}, attrs={'gamma': 'γ'}, model='Flowdyn.eHllc γ rL uL pL rR uR pR', cls_req='sqrt',
          funcs={'_Roe_average': ('eRoe', ['γ'], None)}),
+    # ---------------- euler: conversions and named variables (1D branch)
+    dict(lean='ePressure', file='euler.py', cls='euler', meth='pressure', params='γ r m E', ret='α', lists={'qdata': L('r', 'm', 'E')}, attrs={'gamma': 'γ'},
+         funcs={'kinetic_energy': ('eKinetic1', [], [0, 1])}, model='Flowdyn.ePressure γ r m E', cls_req='', unfold=['Flowdyn.eKinetic']),
+    dict(lean='eCons2prim', file='euler.py', cls='euler', meth='cons2prim', params='γ r m E', ret='α × α × α', lists={'qdata': L('r', 'm', 'E')}, attrs={'gamma': 'γ'},
+         funcs={'pressure': ('ePressure', ['γ'], None)}, model='Flowdyn.eCons2prim γ r m E', cls_req='', unfold=['Flowdyn.eKinetic', 'Flowdyn.ePressure']),
+    dict(lean='ePrim2cons', file='euler.py', cls='euler', meth='prim2cons', params='γ r u p', ret='α × α × α',
+         lists={'pdata': L('r', 'u', 'p')}, attrs={'gamma': 'γ'}, model='Flowdyn.ePrim2cons γ r u p', cls_req=''),
+    dict(lean='eDensity', file='euler.py', cls='euler', meth='density', params='γ r m E', ret='α', lists={'qdata': L('r', 'm', 'E')}, attrs={'gamma': 'γ'}, model='Flowdyn.eDensity r m E', cls_req=''),
+    dict(lean='eVelocity', file='euler.py', cls='euler', meth='velocity', params='γ r m E', ret='α', lists={'qdata': L('r', 'm', 'E')}, attrs={'gamma': 'γ'}, model='Flowdyn.eVelocity r m', cls_req=''),
+    dict(lean='eVelocityMag', file='euler.py', cls='euler', meth='velocitymag', params='γ r m E', ret='α', lists={'qdata': L('r', 'm', 'E')}, attrs={'gamma': 'γ'}, model='Flowdyn.eVelocityMag r m', cls_req=''),
+    dict(lean='eAsound', file='euler.py', cls='euler', meth='asound', params='γ r m E', ret='α', lists={'qdata': L('r', 'm', 'E')}, attrs={'gamma': 'γ'}, funcs={'pressure': ('ePressure', ['γ'], None)},
+         model='Flowdyn.eAsound γ r m E', cls_req='sqrt', unfold=['Flowdyn.eKinetic', 'Flowdyn.ePressure']),
+    dict(lean='eMach', file='euler.py', cls='euler', meth='mach', params='γ r m E', ret='α', lists={'qdata': L('r', 'm', 'E')}, attrs={'gamma': 'γ'}, model='Flowdyn.eMach γ r m E', cls_req='sqrt'),
+    dict(lean='eEntropy', file='euler.py', cls='euler', meth='entropy', params='γ r m E', ret='α', lists={'qdata': L('r', 'm', 'E')}, attrs={'gamma': 'γ'}, funcs={'pressure': ('ePressure', ['γ'], None)},
+         model='Flowdyn.eEntropy γ r m E', cls_req='rpow log', unfold=['Flowdyn.eKinetic', 'Flowdyn.ePressure']),
+    dict(lean='eEnthalpy', file='euler.py', cls='euler', meth='enthalpy', params='γ r m E', ret='α', lists={'qdata': L('r', 'm', 'E')}, attrs={'gamma': 'γ'}, funcs={'kinetic_energy': ('eKinetic1', [], [0, 1])},
+         model='Flowdyn.eEnthalpy γ r m E', cls_req='', unfold=['Flowdyn.eKinetic']),
+    dict(lean='ePtot', file='euler.py', cls='euler', meth='ptot', params='γ r m E', ret='α', lists={'qdata': L('r', 'm', 'E')}, attrs={'gamma': 'γ'},
+         funcs={'pressure': ('ePressure', ['γ'], None), 'mach': ('eMach', ['γ'], None)}, model='Flowdyn.ePtot γ r m E', cls_req='sqrt rpow',
+         unfold=['Flowdyn.eKinetic', 'Flowdyn.ePressure', 'Flowdyn.eMach']),
+    dict(lean='eRttot', file='euler.py', cls='euler', meth='rttot', params='γ r m E', ret='α', lists={'qdata': L('r', 'm', 'E')}, attrs={'gamma': 'γ'}, funcs={'kinetic_energy': ('eKinetic1', [], [0, 1])},
+         model='Flowdyn.eRttot γ r m E', cls_req='', unfold=['Flowdyn.eKinetic']),
+    dict(lean='eHtot', file='euler.py', cls='euler', meth='htot', params='γ r m E', ret='α', lists={'qdata': L('r', 'm', 'E')}, attrs={'gamma': 'γ'}, funcs={'kinetic_energy': ('eKinetic1', [], [0, 1])},
+         model='Flowdyn.eHtot γ r m E', cls_req='', unfold=['Flowdyn.eKinetic']),
+    dict(lean='eMassflow', file='euler.py', cls='euler1d', meth='massflow', params='γ r m E', ret='α', lists={'qdata': L('r', 'm', 'E')}, attrs={'gamma': 'γ'}, model='Flowdyn.eMassflow r m E', cls_req=''),
+    dict(lean='eDt', file='euler.py', cls='euler', meth='timestep', params='γ cfl dx r m E', ret='α',
+         lists={'data': L('r', 'm', 'E')}, attrs={'gamma': 'γ'}, names={'dx': 'dx', 'condition': 'cfl'},
+         funcs={'velocitymag': ('eVelocityMag', ['γ'], None)}, model='Flowdyn.eDt γ cfl dx r m E', cls_req='sqrt', unfold=['Flowdyn.eVelocityMag']),
+    # ---------------- nozzle geometric sources (x, qdata); g = self.geomterm at the cell
+    dict(lean='nozSrcMass', file='euler.py', cls='nozzle', meth='src_mass', params='γ g r m E', ret='α',
+         lists={'qdata': L('r', 'm', 'E')}, attrs={'gamma': 'γ', 'geomterm': 'g'}, model='Flowdyn.nozSrcMass g r m E', cls_req=''),
+    dict(lean='nozSrcMom', file='euler.py', cls='nozzle', meth='src_mom', params='γ g r m E', ret='α',
+         lists={'qdata': L('r', 'm', 'E')}, attrs={'gamma': 'γ', 'geomterm': 'g'}, model='Flowdyn.nozSrcMom g r m E', cls_req=''),
+    dict(lean='nozSrcEnergy', file='euler.py', cls='nozzle', meth='src_energy', params='γ g r m E', ret='α',
+         lists={'qdata': L('r', 'm', 'E')}, attrs={'gamma': 'γ', 'geomterm': 'g'}, funcs={'kinetic_energy': ('eKinetic1', [], [0, 1])},
+         model='Flowdyn.nozSrcEnergy γ g r m E', cls_req='', unfold=['Flowdyn.eKinetic']),
+    # ---------------- euler1d: elementary boundary states
+    dict(lean='eBcSym', file='euler.py', cls='euler1d', meth='bc_sym', params='γ dir r u p', ret='α × α × α',
+         lists={'data': L('r', 'u', 'p')}, attrs={'gamma': 'γ'}, names={'dir': 'dir'}, model='Flowdyn.eBcSym r u p', cls_req=''),
+    dict(lean='eBcOutsub', file='euler.py', cls='euler1d', meth='bc_outsub_prim', params='γ dir pext r u p', ret='α × α × α',
+         lists={'data': L('r', 'u', 'p')}, attrs={'gamma': 'γ'}, names={'dir': 'dir'}, pars={'p': 'pext'}, model='Flowdyn.eBcOutsub pext r u p', cls_req=''),
+    dict(lean='eBcOutsup', file='euler.py', cls='euler1d', meth='bc_outsup', params='γ dir r u p', ret='α × α × α',
+         lists={'data': L('r', 'u', 'p')}, attrs={'gamma': 'γ'}, names={'dir': 'dir'}, model='Flowdyn.eBcOutsup r u p', cls_req=''),
+    # ---------------- shallow water conversions and variables, convection
+    dict(lean='swCons2prim', file='shallowwater.py', cls='shallowwater1d', meth='cons2prim', params='g h q', ret='α × α',
+         lists={'qdata': L('h', 'q')}, attrs={'g': 'g'}, model='Flowdyn.swCons2prim h q', cls_req=''),
+    dict(lean='swPrim2cons', file='shallowwater.py', cls='shallowwater1d', meth='prim2cons', params='g h u', ret='α × α',
+         lists={'pdata': L('h', 'u')}, attrs={'g': 'g'}, model='Flowdyn.swPrim2cons h u', cls_req=''),
+    dict(lean='swHeight', file='shallowwater.py', cls='shallowwater1d', meth='height', params='g h q', ret='α',
+         lists={'qdata': L('h', 'q')}, attrs={'g': 'g'}, model='Flowdyn.swHeight h q', cls_req=''),
+    dict(lean='swMassflow', file='shallowwater.py', cls='shallowwater1d', meth='massflow', params='g h q', ret='α',
+         lists={'qdata': L('h', 'q')}, attrs={'g': 'g'}, model='Flowdyn.swMassflow h q', cls_req=''),
+    dict(lean='swVelocity', file='shallowwater.py', cls='shallowwater1d', meth='velocity', params='g h q', ret='α',
+         lists={'qdata': L('h', 'q')}, attrs={'g': 'g'}, model='Flowdyn.swVelocity h q', cls_req=''),
+    dict(lean='convFlux', file='convection.py', cls='model', meth='numflux', params='a L R', ret='α',
+         lists={'pL': L('L'), 'pR': L('R')}, attrs={'convcoef': 'a'}, model='Flowdyn.convFlux a L R', cls_req='', unwrap=True),
+    dict(lean='convDt', file='convection.py', cls='model', meth='timestep', params='a cfl dx', ret='α',
+         lists={}, attrs={'convcoef': 'a'}, names={'dx': 'dx', 'condition': 'cfl'}, model='Flowdyn.convDt a cfl dx', cls_req=''),
     # ---------------- euler1d boundary conditions (dir, data, param)
     dict(lean='eBcInsub', file='euler.py', cls='euler1d', meth='bc_insub', params='γ dir ptot rttot r u p', ret='α × α × α',
          lists={'data': L('r', 'u', 'p')}, attrs={'gamma': 'γ'}, names={'dir': 'dir'}, pars={'ptot': 'ptot', 'rttot': 'rttot'},
@@ -221,6 +301,8 @@ GENERATED by harness/gen_kernels.py: mechanical translation of pointwise numpy k
 Bridge theorems (Flowdyn/Props/KernelsBridge.lean) prove that these are the hand-written model kernels.
 -/
 import Flowdyn.Num
+
+set_option linter.unusedVariables false
 
 namespace Flowdyn.GenK
 variable {α : Type} [Field α] [LinearOrder α] [IsStrictOrderedRing α]
@@ -253,7 +335,7 @@ variable {α : Type} [Field α] [LinearOrder α] [IsStrictOrderedRing α]
             tr = Tr(src, env, {k: v for k, v in sp.get('funcs', {}).items()})
             body = tr.body(fn)
         out.append("def %s%s (%s : α) : %s :=\n%s\n\n" % (sp['lean'], inst, " ".join(params), sp['ret'], body))
-        bridge.append((sp['lean'], inst, params, sp['model']))
+        bridge.append((sp['lean'], inst, params, sp['model'], sp.get('unfold', [])))
     out.append("end Flowdyn.GenK\n")
     return "".join(out), bridge
 
@@ -281,8 +363,13 @@ absorbs harmless algebraic rewrites; `HasSqrt.sqrt`, `HasRpow.rpow`, `min`, `max
 import Flowdyn.Generated.Kernels
 import Flowdyn.Model.Kernels.ShallowWater
 import Flowdyn.Model.Kernels.Euler
+import Flowdyn.Model.Kernels.Scalar
 import Mathlib.Tactic.Ring
 import Mathlib.Tactic.SplitIfs
+
+set_option linter.unusedSimpArgs false
+set_option linter.unusedSectionVars false
+set_option linter.unusedVariables false
 
 namespace Flowdyn.GenK
 variable {α : Type} [Field α] [LinearOrder α] [IsStrictOrderedRing α]
@@ -295,9 +382,13 @@ macro "kern_bridge" : tactic =>
     | (refine Prod.ext ?_ ?_ <;> first | kern_close | (refine Prod.ext ?_ ?_ <;> kern_close)))
 
 """]
-    for (lean, inst, params, model) in bridge:
-        bl.append("theorem %s_eq%s (%s : α) :\n    GenK.%s %s = %s := by\n  first\n    | (simp only [GenK.%s, %s, GenK.eRoe, Flowdyn.eRoe, Flowdyn.swRusanovG, pow_one]; done)\n    | (simp only [GenK.%s, %s, GenK.eRoe, Flowdyn.eRoe, Flowdyn.swRusanovG, pow_one]; kern_bridge)\n\n" % (
-            lean, inst, " ".join(params), lean, " ".join(params), model, lean, model.replace('(let r := ', '').split()[0], lean, model.replace('(let r := ', '').split()[0]))
+    gen_names = ", ".join("GenK.%s" % b[0] for b in bridge)
+    for (lean, inst, params, model, unfold) in bridge:
+        head = model.replace('(let r := ', '').split()[0]
+        names = ", ".join(["GenK.%s" % lean, head, "GenK.eRoe", "Flowdyn.eRoe", "Flowdyn.swRusanovG"] + list(unfold) +
+                          ["GenK.eKinetic1", "GenK.ePressure", "GenK.eMach", "GenK.eVelocityMag", "pow_one"])
+        bl.append("theorem %s_eq%s (%s : α) :\n    GenK.%s %s = %s := by\n  first\n    | (simp only [%s]; done)\n    | (simp only [%s]; kern_bridge)\n\n" % (
+            lean, inst, " ".join(params), lean, " ".join(params), model, names, names))
     bl.append("end Flowdyn.GenK\n")
     btxt = "".join(bl)
     bp = os.path.join(outdir, '..', 'Props', 'KernelsBridge.lean')
